@@ -18,7 +18,7 @@ git -C /repo worktree add -q --detach $R HEAD || exit 2
 trap 'git -C /repo worktree remove --force $R' EXIT
 export VERIF_REPO=$R VERIF_OUT=$out/outroot-rerun VERIF_FAIL_FAST=1
 mkdir -p $VERIF_OUT
-for id in $(awk -F'\t' '$5=="harness"||$5=="hang"{print $1}' $tsv); do
+for id in $(awk -F"\t" -v also="${RERUN_ALSO:-}" '$5=="harness"||$5=="hang"||(also!="" && $5==also){print $1}' $tsv); do
   read -r line fn file desc < <(python3 -c "
 import json
 for m in json.load(open('$out/index.json')):
